@@ -49,7 +49,18 @@ fn nudge(x: f64, k: i8) -> f64 {
 /// argument of the cylindrical functions, |x| <= 60
 pub fn c14_arg(s: u8, u: f64, off: i8) -> f64 {
     let neg = s & 1 == 1;
-    let x = match (s >> 1) % 12 {
+    let x = match (s >> 1) % 14 {
+        12 | 13 => {
+            // multiples of pi/4 (the phase of the asymptotic expansion is x - pi/4, x - 3 pi/4): +-3 floats
+            // and +-1e-9 around k pi/4, k = 1..76
+            let k = 1.0 + (u * 76.0).floor().min(75.0);
+            let z = k * std::f64::consts::FRAC_PI_4;
+            if (s >> 1) % 14 == 12 {
+                nudge(z, off)
+            } else {
+                z + off as f64 * 1.0e-9 / 3.0
+            }
+        }
         0 => 0.0,
         1 => 10f64.powf(-300.0 + 294.0 * u),
         2 => nudge(1e-5, off),
@@ -281,7 +292,7 @@ impl Property for C14 {
         }
     }
     fn rule() -> String {
-        "generated: (f64 Copy type incl. static vectors and nested types up to 4th order, n in 0..2, x in [-60,60] from strata {0, tiny 1e-300..1e-6, +-3 floats around the switch points 1e-5, 1, 5, (1e-5,1], (1,5], (5,60], +-3 floats around zeros of J0/J1/J2, both signs}, arbitrary parts, presence patterns). Oracle: J_0..J_(n+order) by power series (|x|<2) / Miller backward recurrence, derivatives by the iterated relation 2 J_n' = J_(n-1) - J_(n+1), composed in the reference algebra (validated against mpmath in `ndv selftest`). Tolerance: value ~32 u (1+|J|), parts of total order k: 2^(5+3k) u * sum|terms| (the library differentiates rational approximations). Parity: f(-x) with negated parts must equal +-f(x) part by part. Non-trivial: a derivative part of the operand is non-zero; class counters show every branch and sign.".into()
+        "generated: (f64 Copy type incl. static vectors and nested types up to 4th order, n in 0..2, x in [-60,60] from strata {0, tiny 1e-300..1e-6, +-3 floats around the switch points 1e-5, 1, 5, (1e-5,1], (1,5], (5,60], +-3 floats around zeros of J0/J1/J2, +-3 floats and +-1e-9 around the multiples k pi/4 (k <= 76) of the asymptotic phase, both signs}, arbitrary parts, presence patterns). Oracle: J_0..J_(n+order) by power series (|x|<2) / Miller backward recurrence, derivatives by the iterated relation 2 J_n' = J_(n-1) - J_(n+1), composed in the reference algebra (validated against mpmath in `ndv selftest`). Tolerance: value ~32 u (1+|J|), parts of total order k: 2^(5+3k) u * sum|terms| (the library differentiates rational approximations). Parity: f(-x) with negated parts must equal +-f(x) part by part. Non-trivial: a derivative part of the operand is non-zero; class counters show every branch and sign.".into()
     }
     fn assumptions() -> Vec<String> {
         vec![
